@@ -133,6 +133,10 @@ func TestVerifC01(t *testing.T) {
 		{"collection-item", "name"},
 		{"post", "ctx:pre"}, {"post", "ctx:code"}, {"post", "ctx:pre>code"}, {"post", "ctx:pre>b"}, {"post", "ctx:blockquote"}, {"post", "ctx:ul>li"}, {"post", "ctx:h2"}, {"post", "ctx:a"},
 		{"post", "ctx:table>tr>td"}, {"post", "ctx:li"}, {"post", "ctx:div>pre>span"}, {"post", "ctx:mark"}, {"post", "ctx:s"}, {"post", "ctx:blockquote>pre"}, {"post", "ctx:textarea"}, {"post", "ctx:title"},
+		// the same members given as lists of strings (JSON-LD allows any property to be a list): however a list is treated where a
+		// string is expected, its elements are text from the network
+		{"post", "list:name"}, {"post", "list:content"}, {"post", "list:content:text/plain"}, {"post", "list:content:text/gemini"}, {"post", "list:summary"}, {"post", "list:published"},
+		{"post", "list:attachment.name"}, {"actor", "list:name"}, {"actor", "list:preferredUsername"}, {"actor", "list:summary"}, {"post", "list:mediaType"}, {"post", "list:type"},
 		{"post", "mdctx:fence"}, {"post", "mdctx:quote"}, {"post", "mdctx:list"}, {"post", "mdctx:heading"}, {"post", "mdctx:table"}, {"post", "mdctx:html-block"},
 	}
 	build := func(f fieldSpec, p string) (map[string]any, string) {
@@ -160,6 +164,18 @@ func TestVerifC01(t *testing.T) {
 			}
 			post["content"] = "lead " + open + "in " + p + " side\n  " + p + close + " tail"
 			markup = "text/html"
+		}
+		if strings.HasPrefix(f.field, "list:") {
+			lst := [][]any{{p}, {"", p}, {p, "second " + p}, {nil, p}, {[]any{p}}}[len(p)%5]
+			switch key := strings.TrimPrefix(f.field, "list:"); key {
+			case "content:text/plain", "content:text/gemini":
+				post["content"], post["mediaType"] = lst, strings.TrimPrefix(key, "content:")
+				markup = strings.TrimPrefix(key, "content:")
+			case "attachment.name":
+				post["attachment"] = []any{map[string]any{"type": "Document", "url": "https://x.example/f", "name": lst}}
+			default:
+				post[key], actor[key] = lst, lst
+			}
 		}
 		switch f.field {
 		case "name":
